@@ -405,3 +405,58 @@ func forwardReaches(p *core.Prog, src ssa.Value, sink func(c ssa.CallInstruction
 	}
 	return false
 }
+
+// isMapMembership: v is the answer to "is this string key in the map": a lookup in a map[string]bool,
+// the ok of a comma-ok lookup in a string-keyed map, or the result of a small module function that
+// returns one of those for a map it is given (`func (s set) has(k string) bool { _, ok := s[k]; return ok }`).
+func isMapMembership(v ssa.Value, depth int) bool {
+	switch x := v.(type) {
+	case *ssa.Lookup:
+		if m, ok := x.X.Type().Underlying().(*types.Map); ok && isStringType(m.Key()) {
+			return true
+		}
+	case *ssa.Extract:
+		if lk, ok := x.Tuple.(*ssa.Lookup); ok && lk.CommaOk && x.Index == 1 {
+			if m, ok := lk.X.Type().Underlying().(*types.Map); ok && isStringType(m.Key()) {
+				return true
+			}
+		}
+	case *ssa.Call:
+		g := x.Call.StaticCallee()
+		if g == nil || depth > 1 || len(g.Blocks) == 0 || len(g.Blocks) > 3 || g.Signature.Results().Len() != 1 {
+			return false
+		}
+		rets := core.Returns(g)
+		if len(rets) != 1 {
+			return false
+		}
+		return isMapMembership(core.ReturnOperand(rets[0], 0), depth+1)
+	}
+	return false
+}
+
+// unitFuncs: fn, its function literals, and the unexported same-package functions they call — applied
+// repeatedly up to depth. It is the set of functions a maintainer may have spread the body of fn over
+// (helpers, handlers registered as literals that forward to methods).
+func unitFuncs(fn *ssa.Function, depth int, stop func(*ssa.Function) bool) map[*ssa.Function]bool {
+	out := map[*ssa.Function]bool{}
+	var walk func(f *ssa.Function, d int)
+	walk = func(f *ssa.Function, d int) {
+		for _, lit := range core.WithAnon(f) {
+			if out[lit] {
+				continue
+			}
+			out[lit] = true
+			if d >= depth {
+				continue
+			}
+			for h := range core.HelpersExcept(lit, 1, stop) {
+				if !out[h] {
+					walk(h, d+1)
+				}
+			}
+		}
+	}
+	walk(fn, 0)
+	return out
+}
